@@ -369,6 +369,26 @@ def rotate(case):
     u = UCELLS[case['cell']]
     U = matrix_of(case['m']) if 'm' in case else ROWS56[[case['r0'], case['r1'], case['r2']]]
     system = make_system(u)
+    pres = case.get('pres', 0)
+    if pres:
+        # the same crystal presented differently: cell rotated in space (not LAMMPS-normal) and / or face atoms given
+        # on the far faces.  rotate() must normalise and wrap whatever vectors it is given -- also
+        # the identity set.
+        v = np.array(system.box.vects)
+        pos = np.array(system.atoms.pos)
+        if pres in (1, 3):
+            R = rot([1, 2, 3], 37.0)
+            v, pos = v @ R.T, pos @ R.T
+        if pres in (2, 3):
+            # atoms that lie on a low face are presented on the opposite (far) face: relative coordinate exactly 1
+            # (atoms ON faces are inside the quantifier; atoms beyond the cell are not -- rotate() documents a cell)
+            rel = u['rel'].copy()
+            far = (rel == 0.0)
+            far[2:] = False
+            rel[far] = 1.0
+            pos = rel @ v
+        system = am.System(atoms=am.Atoms(atype=np.array(system.atoms.atype), pos=pos, ip=np.array(system.atoms.ip), fv=np.array(system.atoms.fv)),
+                           box=am.Box(vects=v), symbols=system.symbols)
     before = Snap(system)
     fails = []
     form = case.get('form', 0)
@@ -654,6 +674,15 @@ def gen():
         for m in range(3 ** 9):
             if THOROUGH or m % 4 == form:      # quick: a fixed quarter of the matrices per form
                 yield 'rotate', {'cell': 1, 'm': m, 'form': form}
+    # other presentations of the same crystal (rotated in space / face atoms on the far faces / both): the identity set and the
+    # permutation-like sets always, a fixed quarter of all matrices per presentation in quick, all of them in thorough
+    always = {m for m in range(3 ** 9) if np.abs(matrix_of(m)).sum() == 3 and adjugate_int(matrix_of(m))[1] != 0}
+    for pres in (1, 2, 3):
+        for m in range(3 ** 9):
+            if THOROUGH or m in always or m % 4 == pres:
+                yield 'rotate', {'cell': 1, 'm': m, 'pres': pres}
+                if m in always:
+                    yield 'rotate', {'cell': 3, 'm': m, 'pres': pres}
     if THOROUGH:
         # rows from the 32 shortest integer vectors (all cells) and from the 56 shortest (three cells), index bound |det| <= 8
         deep = [i for i, u in enumerate(UCELLS) if u['name'] in ('fcc', 'triclinic-3at-faces', 'hcp')]
